@@ -304,7 +304,7 @@ def run_case(case, seed_noise=0):
     case kinds: plain (default) | hist (a history of queries on the operator and on op.add_jitter(c) composites that SHARE
     it; the last step is observed) | catrows (op.cat_rows(B, D), then the query on the concatenated operator)"""
     L = lib()
-    torch.manual_seed(seed_noise)
+    torch.manual_seed(int(case["torch_seed"]) if case.get("torch_seed") is not None else seed_noise)
     kind = case.get("kind", "plain")
     op = opbuild.build(case["expr"], F64)
     res = {"kind": "ok", "exc": None, "msg": None, "out": {}, "cls": {}, "events": [], "chosen": [], "eigh": [], "lzd": [], "lzr": [], "piv": [],
@@ -350,6 +350,12 @@ def run_case(case, seed_noise=0):
         res["events"] = sorted(set(rec.events if mark is None else rec.events[mark:]))
         res["chosen"] = rec.chosen
         res["eigh"], res["lzd"], res["lzr"], res["piv"], res["pinv"] = rec.eigh, rec.lzd, rec.lzr, rec.piv, rec.pinv
+    if case.get("expr_rescaled") is not None:
+        # the same query on the rescaled operator with the same torch seed (= the same Lanczos start vector)
+        c2 = {k: v for k, v in case.items() if k not in ("expr_rescaled", "rescale")}
+        c2["expr"] = case["expr_rescaled"]
+        r2 = run_case(c2, seed_noise)
+        res["rescaled_events"] = r2["events"]
     return res
 
 
